@@ -380,3 +380,54 @@ elif os.path.exists(cfg_base):
         open(cfg_path, "w").write(open(cfg_base).read())
 print(json.dumps({"found": len(found) + len(cfound), "fallback": {**fallback, **cfallback},
                   "differs_from_baseline": bool(drift), "items": found}))
+
+# ================================================================ crypto recipe (C17): Gen/Crypto.lean
+crypto_rs = strip_comments(src("teos-common/src/cryptography.rs"))
+def recipe(fn):
+    b = fn_body(crypto_rs, fn)
+    if not b:
+        return None
+    nonce = re.search(r"let\s+nonce\s*=\s*([^;]+);", b)
+    key = re.search(r"let\s+k\s*=\s*([^;]+);", b)
+    use = re.search(r"Key::from_slice\(\s*([^)]*)\)", b)
+    if not (nonce and key and use):
+        return None
+    norm = lambda x: re.sub(r"\s+", "", x)
+    return (norm(key.group(1)), norm(use.group(1)), norm(nonce.group(1)))
+enc_r, dec_r = recipe("encrypt"), recipe("decrypt")
+b = fn_body(crypto_rs, "encrypt") or ""
+enc_ser = "consensus::serialize" in b and re.search(r"cypher\.encrypt\(&nonce,\s*consensus::serialize\(message\)\.as_ref\(\)\)", re.sub(r"\s+", " ", b)) is not None
+b = fn_body(crypto_rs, "decrypt") or ""
+dec_deser = re.search(r"cypher\.decrypt\(&nonce,\s*encrypted_blob\.as_ref\(\)\)", re.sub(r"\s+", " ", b)) is not None and "consensus::deserialize(&tx_bytes)" in b
+b = fn_body(strip_comments(src("teos-common/src/appointment.rs")), "new") or ""
+loc = re.search(r"txid\[\.\.LOCATOR_LEN\]", b) is not None
+m = re.search(r"pub const LOCATOR_LEN\s*:\s*usize\s*=\s*(\d+)\s*;", strip_comments(src("teos-common/src/appointment.rs")))
+b = fn_body(crypto_rs, "verify") or ""
+ver = re.sub(r"\s+", "", b) == "message_signing::recover_pk(msg,sig).map_or_else(|_|false,|x|x==*pk)"
+cr_path = os.path.join(gen_dir, "Crypto.lean")
+cr_base = os.path.join(base_dir, "Crypto.lean.txt")
+if enc_r and dec_r and m:
+    def q(s):
+        return '"' + s.replace("\\", "\\\\").replace('"', '\\"') + '"'
+    T = ["/- GENERATED by tools/extract.py from teos-common/src/cryptography.rs and appointment.rs. Do not edit. -/",
+         "namespace Teos.Gen\n",
+         "/-- how `encrypt` / `decrypt` derive key and nonce: (key derivation, what is handed to `Key::from_slice`, nonce) -/",
+         f"def encRecipe : String × String × String := ({q(enc_r[0])}, {q(enc_r[1])}, {q(enc_r[2])})",
+         f"def decRecipe : String × String × String := ({q(dec_r[0])}, {q(dec_r[1])}, {q(dec_r[2])})",
+         "/-- `encrypt` seals `consensus::serialize(message)`; `decrypt` opens the blob and `consensus::deserialize`s the plaintext -/",
+         f"def encSerialises : Bool := {'true' if enc_ser else 'false'}",
+         f"def decDeserialises : Bool := {'true' if dec_deser else 'false'}",
+         "/-- `Locator::new(txid)` takes `txid[..LOCATOR_LEN]` -/",
+         f"def locatorIsPrefix : Bool := {'true' if loc else 'false'}",
+         f"def LOCATOR_LEN : Nat := {m.group(1)}",
+         "/-- `verify(msg, sig, pk)` is `recover_pk(msg, sig) == Ok(pk)` -/",
+         f"def verifyIsRecoverEq : Bool := {'true' if ver else 'false'}\n",
+         "end Teos.Gen"]
+    t = "\n".join(T) + "\n"
+    if not os.path.exists(cr_path) or open(cr_path).read() != t:
+        open(cr_path, "w").write(t)
+elif os.path.exists(cr_base):
+    if not os.path.exists(cr_path) or open(cr_path).read() != open(cr_base).read():
+        open(cr_path, "w").write(open(cr_base).read())
+    print(json.dumps({"found": len(found) + len(cfound), "fallback": {**fallback, **cfallback, "cryptoRecipe": "not found"},
+                      "differs_from_baseline": bool(drift), "items": found}))
